@@ -36,6 +36,33 @@ theorem C13_walk_repeat (fs : FS) (ign : Path → Bool) (paths : List Path) (r :
   · rintro ⟨r', hr', h⟩
     exact ⟨r', List.mem_append.2 (Or.inl hr'), h⟩
 
+/-! ## Which files are task modules -/
+
+/-- **C13_task_files_match.** Both `pytask_collect_file` implementations decide with the same predicate — `path.match`,
+i.e. right-anchored, component-wise fnmatch — so a path is a task module iff some `task_files` pattern matches its
+trailing components; a pattern with a directory part (`tasks/*.py`, `sub/*/t_*.py`) is not compared with the file name
+alone. -/
+theorem C13_task_files_match (c : Cfg) (p : Path) :
+    c.isTaskFile p = (c.taskFiles.map parsePat).any (fun pat => pat.matches p) := by
+  unfold Cfg.isTaskFile Cfg.isTaskFileFor
+  simp [Generated.Col.taskFilesPredicates, matchBy]
+
+/-- a relative pattern of `k` components looks at exactly the last `k` components of the path. -/
+theorem C13_pattern_trailing (pat : Pat) (pre p : Path) (hrel : pat.abs = false) (hne : pat.comps ≠ [])
+    (hlen : pat.comps.length = p.length) : pat.matches (pre ++ p) = compsMatch pat.comps p := by
+  unfold Pat.matches
+  have h1 : pat.comps.isEmpty = false := by cases h : pat.comps with | nil => exact absurd h hne | cons _ _ => rfl
+  have h2 : pat.comps.length ≤ (pre ++ p).length := by simp [hlen]
+  have h3 : (pre ++ p).drop ((pre ++ p).length - pat.comps.length) = p := by
+    have : (pre ++ p).length - pat.comps.length = pre.length := by simp [hlen]
+    rw [this, List.drop_left]
+  simp only [h1, hrel, Bool.false_eq_true, ↓reduceIte, h3, decide_eq_true h2, Bool.true_and]
+
+example : (parsePat "tasks/*.py").matches ["r", "p", "tasks", "build_a.py"] = true ∧
+    (parsePat "tasks/*.py").matches ["r", "p", "other", "build_a.py"] = false ∧
+    (parsePat "sub/*/t_*.py").matches ["r", "sub", "x", "t_1.py"] = true ∧
+    (parsePat "TASK_*.py").matches ["r", "task_a.py"] = false := by decide
+
 /-! ## Shortest unique display names -/
 
 /-- **C13_short_names_inj.** `_find_shortest_uniquely_identifiable_name_for_tasks` never gives two
